@@ -276,7 +276,7 @@ func drawWireCase(t *rapid.T, o *gen.WireOpts) wireCase {
 	}
 	c.Codec = rapid.SampledFrom([]string{"null", "deflate", "snappy", "null", "deflate", "snappy", ""}).Draw(t, "codec")
 	c.Sync = rapid.SliceOfN(rapid.Byte(), 16, 16).Draw(t, "sync")
-	c.Reader = []int{0, 0, 0, 1, 2, 5}[gen.Uniform(t, "reader", 6)]
+	c.Reader = []int{0, 0, 0, 1, 2, 5, 102, 4195}[gen.Uniform(t, "reader", 8)]
 	return c
 }
 
